@@ -1082,8 +1082,10 @@ def run_malformed(ctx, oracle, stats, nontrivial, report, thorough):
     # array sizes: the overflow check of declarator
     arrs = []
     for _ in range(80 if not thorough else 800):
-        esz = rng.choice([1, 2, 4, 8, 16, 24])
-        et = {1: 'char', 2: 'short', 4: 'int', 8: 'long', 16: 'long double', 24: 'struct { long a, b, c; }'}[esz]
+        # element types that are huge themselves: the product overflows although the length is tiny
+        esz = rng.choice([1, 2, 4, 8, 16, 24, 1 << 33, 1 << 40, 1 << 62, 3 << 40])
+        et = {1: 'char', 2: 'short', 4: 'int', 8: 'long', 16: 'long double', 24: 'struct { long a, b, c; }', 1 << 33: 'struct { char x[1ull << 33]; }',
+              1 << 40: 'struct { short x[1ull << 39]; }', 1 << 62: 'struct { char x[1ull << 62]; }', 3 << 40: 'struct { char x[3ull << 40]; }'}[esz]
         tot = rng.choice([1 << 64, 1 << 63, 1 << 62, (1 << 64) - 1, rng.randint(1, 1 << 20)])
         n = max(0, tot // esz + rng.choice([-1, 0, 0, 1]))
         signed = rng.random() < 0.3
@@ -1093,7 +1095,7 @@ def run_malformed(ctx, oracle, stats, nontrivial, report, thorough):
     def aone(a):
         esz, et, n, signed, nl = a
         src = 'typedef %s E; typedef E A[%s]; unsigned long v[] = { sizeof(A) };\n' % (et, nl)
-        lines = run_oracle(oracle, ['scalar 300 %d %d 0' % (esz, min(esz, 16)), 'array 301 300 %d %d' % (n, signed)])
+        lines = run_oracle(oracle, ['scalar 300 %d %d 0' % (esz, 2 if esz == 1 << 40 else 1 if esz > 24 else min(esz, 16)), 'array 301 300 %d %d' % (n, signed)])
         rc, out, err = ctx.qbe(src)
         okg, dg = compile_ref(ctx, src, None, 'gcc')
         return a, src, lines[0], rc, u64s(parse_il_data(out).get('v', b'')) if rc == 0 else err[:200], (okg, u64s(dg.get('v', b'')) if okg else None)
